@@ -75,6 +75,7 @@ func GenC18Script(t *rapid.T, thorough bool) *Script {
 			w.Parallelism = rapid.IntRange(1, 3).Draw(t, "parallelism")
 		case "jobset", "trainjob":
 			w.AnyOrder = rapid.Bool().Draw(t, "anyorder")
+			w.ChildMetaDiffers = rapid.IntRange(0, 2).Draw(t, "childmeta") == 0
 			w.Parallelism = rapid.IntRange(1, 3).Draw(t, "parallelism")
 			w.Completions = pick(t, "completions", 0, 1, 2, 4)
 			w.RJReplicas = rapid.IntRange(1, 2).Draw(t, "rjreplicas")
